@@ -251,8 +251,35 @@ def r08_7(run, model):
                witness="fn work() -> unit {..} fn main() { go work; } is accepted by the typer (work: () -> unit) and panics in the Go back end: `go statement closure must have an apply method`")
 
 
+def r08_8(run, model):
+    run.rule("R08.8", "layered environments delegate to the next layer only: a method of the lift/mono environment that falls back to "
+                      "`self.<layer>….<same method>(..)` goes through exactly one layer field (skipping a layer hides the definitions "
+                      "that layer added: monomorphised struct instances, lifted closure structs)")
+    n = 0
+    for rel in (LIFT, "crates/compiler/src/mono.rs"):
+        for f in model.fns(rel):
+            if f.body is None or f.impl not in ("GlobalLiftEnv", "GlobalMonoEnv"):
+                continue
+            for c in S.walk(f.body):
+                if c["k"] != "MethodCall" or c["method"] != f.name:
+                    continue
+                hops = []
+                r = c["recv"]
+                while r["k"] == "Field":
+                    hops.append(r.get("member"))
+                    r = r["base"]
+                if not S.is_path(r, "self") or not hops:
+                    continue
+                n += 1
+                run.ob("R08.8", f"{f.impl}::{f.name}|delegates to the adjacent layer", len(hops) == 1, site(rel, c["sp"]),
+                       f"self.{'.'.join(reversed(hops))}.{f.name}(..)" + ("" if len(hops) == 1 else f" skips {len(hops) - 1} layer(s)"),
+                       witness="a closure stored in a field of a generic struct (Slot[(int32)->int32]): the field type of the monomorphised instance is never rewritten to the closure struct, s.item(4) is emitted as a call of a bare func value")
+    run.floor("same-name delegations in the lift/mono environments", n, 4)
+
+
 def run(run, model):
     run.try_rule(r08_7, model)
+    run.try_rule(r08_8, model)
     run.try_rule(r08_5, model)
     from rules import c07
     run.rule("R08.6", "the closure-type predicates and rewriters of lift.rs are structural over every type former (shared with C07 R07.2, restricted to lift.rs)")
